@@ -188,6 +188,12 @@ func refineSet(set ivset, op token.Token, k int64, truth bool) ivset {
 // reachSets: for which values of scr is each block reached, starting from `start` with `init`.
 // Conditions that are phis of such comparisons (a || b chains materialised as values) are followed per edge.
 func reachSets(fn *ssa.Function, scr ssa.Value, start *ssa.BasicBlock, init ivset) map[*ssa.BasicBlock]ivset {
+	sets, _ := reachSetsEdges(fn, scr, start, init)
+	return sets
+}
+
+// reachSetsEdges also returns, per block and predecessor, the values for which that edge is taken.
+func reachSetsEdges(fn *ssa.Function, scr ssa.Value, start *ssa.BasicBlock, init ivset) (map[*ssa.BasicBlock]ivset, map[*ssa.BasicBlock]map[*ssa.BasicBlock]ivset) {
 	sets := map[*ssa.BasicBlock]ivset{start: init}
 	// per (block, pred) sets to resolve condition phis
 	from := map[*ssa.BasicBlock]map[*ssa.BasicBlock]ivset{}
@@ -379,7 +385,7 @@ func reachSets(fn *ssa.Function, scr ssa.Value, start *ssa.BasicBlock, init ivse
 			push(s, set)
 		}
 	}
-	return sets
+	return sets, from
 }
 
 func runC03(c *Ctx) {
@@ -563,6 +569,36 @@ func runC03(c *Ctx) {
 	// ---- R4 / R5 escapes
 	r4 := c.Rule("R4", "single-character escapes", 6)
 	r5 := c.Rule("R5", "unicode escapes", 3)
+	// a decoded character reaches the value buffer as UTF-8: written with WriteRune, or with WriteByte only where the
+	// character is known to be below 0x80 (a byte >= 0x80 on its own is not the encoding of any character)
+	for _, fn := range p.FuncsIn("lexer") {
+		allInstrs(fn, func(in ssa.Instruction) {
+			call, ok := in.(*ssa.Call)
+			if !ok || !strings.HasSuffix(calleeName(call), ").WriteByte") || len(call.Call.Args) != 2 {
+				return
+			}
+			cv, ok := call.Call.Args[1].(*ssa.Convert)
+			if !ok {
+				return
+			}
+			b, ok := cv.X.Type().Underlying().(*types.Basic)
+			if !ok || (b.Kind() != types.Int32 && b.Kind() != types.Int && b.Kind() != types.Uint32) {
+				return // a byte copied as a byte
+			}
+			src := cv.X
+			start := fn.Blocks[0]
+			if si, ok := src.(ssa.Instruction); ok {
+				start = si.Block()
+			}
+			sets := reachSets(fn, src, start, ivFull(0x10FFFF))
+			set := sets[in.Block()]
+			if len(set) > 0 && set[len(set)-1][1] >= 0x80 {
+				r5.Fail(in.Pos(), p.FuncName(fn), "character written as one byte for "+set.String(), "a character of U+0080 or above is narrowed to a single byte and written without UTF-8 encoding: the string value holds a byte sequence that is not the character (and may not be valid UTF-8)")
+			} else {
+				r5.OK("WriteByte(byte(c)) in "+p.FuncName(fn)+" at "+p.Pos(in.Pos()), "c is below 0x80 wherever the write is reached")
+			}
+		})
+	}
 	rs := p.Func("lexer.(*Lexer).readString")
 	if rs == nil {
 		r4.AnchorLost("lexer.(*Lexer).readString")
